@@ -21,8 +21,16 @@ import vlib
 
 INVS = ["EachGenerationOnce", "Consecutive", "OnlyLatestOpen", "StateMonotone", "TrimmedNeverReappears",
         "NoTwoCommitsOnSameGeneration", "OwnerChangesSerialise"]
+# the named deviations of MemWalOps.tla (code as it was read) ...
+ALL_DEVIATIONS = ["TrimOtherSkipsCheck", "MemWalIgnoresMerge", "MergeIgnoresMerge", "MergeIgnoresTrim",
+                  "AdvanceIgnoresClosedLatest", "TrimRemovesLatest"]
+# ... and the ones currently believed to describe /repo: histories are generated from the model with exactly these
+# (so the findings it predicts are the ones the implementation must show), and the trace validator accepts a
+# step explained by any subset of them.  Remove a name when its `fix:` commit lands in /repo.
 AS_BUILT = ["TrimOtherSkipsCheck", "MemWalIgnoresMerge", "MergeIgnoresMerge", "MergeIgnoresTrim",
             "AdvanceIgnoresClosedLatest", "TrimRemovesLatest"]
+if os.environ.get("VERIF_C39_BELIEVED") is not None:      # development: try another belief without editing this file
+    AS_BUILT = [d for d in os.environ["VERIF_C39_BELIEVED"].split(",") if d]
 ALL_KINDS = ["advance", "append", "seal", "flush", "merge", "owner", "trim", "mmerge", "tappend", "checkout"]
 
 CFG = """SPECIFICATION Spec
@@ -40,6 +48,7 @@ VIEW view
 CHECK_DEADLOCK FALSE
 """
 TRACE_CFG = """SPECIFICATION TraceSpec
+CONSTANT Believed = %s
 INVARIANT Report
 POSTCONDITION TraceAccepted
 CHECK_DEADLOCK FALSE
@@ -179,7 +188,8 @@ def replay_and_validate(name, prop, scenarios, shards, mutate=None, timeout=3000
             args += ["--mutate", mutate]
         vlib.harness_run(binary, args, timeout=timeout)
         shutil.rmtree(f"{scratch}-{k}", ignore_errors=True)
-        v = vlib.tlc_trace(f"memwal-{prop}-{name}-{k}", "Trace_MemWal", TRACE_CFG, tf, timeout=timeout, xmx="4g")
+        v = vlib.tlc_trace(f"memwal-{prop}-{name}-{k}", "Trace_MemWal", TRACE_CFG % tla_set(AS_BUILT), tf,
+                           timeout=timeout, xmx="4g")
         return tf, v
 
     out = []
@@ -386,8 +396,8 @@ def run(prop, tier, replay):
         "exhaustive": exhaustive, "model_runs": mc_info, "event_counts": counts_total, "events_validated": total_events,
         "as_built_model_findings": [{"invariant": k[0], "deviation": list(k[1]), "histories": v} for k, v in sorted(model_sigs.items())],
         "findings_observed_on_impl": [{"invariant": k[0], "deviation": list(k[1]), "scenarios": v} for k, v in sorted(obs_sigs.items())],
-        "deviations_observed_on_impl": {d: counts_total.get(d, 0) for d in AS_BUILT},
-        "side_observation_rows_dropped_steps": counts_total.get("rows_dropped", 0),
+        "deviations_believed_as_built": AS_BUILT,
+        "deviations_observed_on_impl": {d: counts_total.get(d, 0) for d in ALL_DEVIATIONS},
         "invariants": INVS, "harness_build_s": build_s, "phase_wall_s": phase,
     }, time.time() - t0, len(out.violations), assumptions)
     return rc
